@@ -189,10 +189,20 @@ def lean_batch(lines, timeout=1800, chunks=1):
             raise InfraError('newline inside a protocol line')
 
     def one(part):
-        p = subprocess.run(['lake', 'env', 'lean', '--run', 'Main.lean'], cwd=LEAN, input='\n'.join(part) + '\n',
-                           capture_output=True, text=True, timeout=timeout)
+        for attempt in range(3):
+            p = subprocess.run(['lake', 'env', 'lean', '--run', 'Main.lean'], cwd=LEAN, input='\n'.join(part) + '\n',
+                               capture_output=True, text=True, timeout=timeout)
+            if p.returncode == 0:
+                break
+            # a concurrent `lake build` (another check preparing the same project) can replace an .olean while this
+            # interpreter loads it: wait for the build lock, make sure the driver is built, and try again
+            if attempt < 2:
+                with open(BUILD / '.lean.lock', 'w') as lock:
+                    fcntl.flock(lock, fcntl.LOCK_EX)
+                    _run(['lake', 'build', 'PyamgV.Driver.Main'], cwd=LEAN, timeout=1800)
+                time.sleep(1 + attempt)
         if p.returncode != 0:
-            raise InfraError(f'lean driver failed rc={p.returncode}: {p.stderr[-800:]}')
+            raise InfraError(f'lean driver failed rc={p.returncode}: {p.stderr[-800:]} | stdout tail: {p.stdout[-400:]}')
         out = p.stdout.split('\n')
         if out and out[-1] == '':
             out.pop()
